@@ -10,7 +10,7 @@ CHECKS = {
          "Every declared length 0..65535 for 17 (quick) / all 256 (thorough) content types is framed through the three record parsers at ten cut points each, and thousands of generated records (valid content of every type, random payloads, inner-overlong heartbeat/handshake) are cut at every prefix; the oracle states the iff of the streaming contract, the exact Needed value, the TooLarge cap and pointer identity of payload and remainder (also when they are empty), and nom's recognize over each parser must return exactly the consumed bytes; openers of 44 other protocols are framed like any other header. The cap boundary and the Incomplete contract are finite statements about small integers, so enumeration settles them for the enumerated types; payload-dependent behaviour is sampled.",
          "Trusts the hand-written 5-byte header decoder in the harness; plaintext content acceptance is not judged here (C03).", "4/C02"),
  "C03": ("proptest-generated message lists with an RFC reference encoder, one-step vs two-step differential, targeted negative and tail families",
-         "Generated records of all five content types (1..12 messages, all alert codes, 17 handshake kinds, app data 0..16640, heartbeat with padding) must decode to exactly the model messages by both routes; empty / cut-short / malformed-first / unknown-type records must be rejected by both routes; valid prefix + invalid tail must yield the prefix and the tail as two-step remainder; on corrupted and random records the two routes must agree; handshake messages of 64 KiB, 10 MiB +- 1 and 2^24 - 1 body bytes followed by a second message through the payload parser.",
+         "Generated records of all five content types (1..12 messages, all alert codes, 17 handshake kinds, app data 0..16640, heartbeat with padding) must decode to exactly the model messages by both routes; empty / cut-short / malformed-first / unknown-type records must be rejected by both routes; valid prefix + invalid tail must yield the prefix and the tail as two-step remainder; on corrupted and random records the two routes must agree; handshake messages of 64 KiB, 10 MiB +- 1 and 2^24 - 1 body bytes followed by a second message through the payload parser. Single handshake messages with a consistent header and a body shorter than any decoder of the type accepts must be errors by both routes, never Incomplete.",
          "Trusts the harness's RFC encoders (vmodel) and the field-by-field conversion of parsed values; sampling, not exhaustive.", "4/C03"),
  "C04": ("proptest-generated handshake values with an RFC reference encoder (round-trip incl. every public body parser), targeted single-field corruptions, exhaustive type-code sweep",
          "Round-trip over generated values of the 17 variants with boundary-weighted field ranges and trailing bytes shaped like a continuation; each rejection rule of the statement instantiated by one targeted edit of a valid encoding, checked stand-alone and inside a record; two encodings that decode to field-wise different values must not compare equal, clones and clone_from copies (message, handshake enum, contents struct, Option, Vec) equal their source; the one Certificate whose framing reads as DER; all 256 type codes x 3 body shapes; bodies up to 2^24-1.",
@@ -40,10 +40,10 @@ CHECKS.update({
          "k-way splits of generated handshake and heartbeat payloads, refusals (foreign type, nocopy, 10 MiB) with state preservation observed through the hook, histories of up to 120 operations in lock step with the model, exact boundary of the size limit, heartbeat messages of up to 3+65535+padding bytes in records within the cap with fragment boundaries steered onto 65535..65539 accumulated bytes; continuation records of 2^32 +- k bytes must be refused; a defragmentation left alone for 2 s (quick) / 65 s (thorough) completes as if no time had passed; a parser that has seen a hello with negotiating extensions treats later records like a fresh one.",
          "The model answers with the public one-shot parser on its own concatenation; where the statement is silent the model adopts the implementation's observable state.", "4/C07"),
  "C09": ("proptest-generated serializable values; oracle = byte equality with the harness's RFC encoder + parse-back round trip + re-serialization; unsupported values must give NotYetImplemented",
-         "Messages, records (constructed and obtained by parsing), extensions and extension lists within wire limits (incl. bodies beyond 16 bits); every unsupported handshake variant, message kind and extension; the same records and extension lists through cookie_factory::gen into byte slices and cursors of every capacity around the full length and into a writer taking a few bytes per call (success only with every byte written and the reported position equal to their number); one serializer value used three times, the first time into a writer that is too small.",
+         "Messages, records (constructed and obtained by parsing), extensions and extension lists within wire limits (incl. bodies beyond 16 bits); every unsupported handshake variant, message kind and extension; the same records and extension lists through cookie_factory::gen into byte slices and cursors of every capacity around the full length and into a writer taking a few bytes per call (success only with every byte written and the reported position equal to their number); one serializer value used three times, the first time into a writer that is too small. Hand-built records whose header type and stale length do not describe their messages (length = message count, payload size, 0, 1, 2) serialize to the exact RFC bytes or NotYetImplemented.",
          "The harness's RFC encoder is the reference for emitted bytes; built with the crate's serialize feature.", "4/C09"),
  "C10": ("exhaustive enumeration of DTLS declared lengths x content types x cut points + proptest-generated DTLS records, handshake headers over full 24-bit ranges and datagrams, against reference header decoders and the model encoder",
-         "13-byte header fields (epoch / 48-bit sequence split), cap, Incomplete contract with exact Needed, fragment predicate and header fields verbatim, supported bodies, multi-record datagrams, records packed to the cap with the smallest messages of each kind; the DTLS ChangeCipherSpec / alert message parsers against their TLS siblings on every input of 0..2 bytes.",
+         "13-byte header fields (epoch / 48-bit sequence split), cap, Incomplete contract with exact Needed, fragment predicate and header fields verbatim, supported bodies, multi-record datagrams, records packed to the cap with the smallest messages of each kind; the DTLS ChangeCipherSpec / alert message parsers against their TLS siblings on every input of 0..2 bytes. Handshake records whose decodable messages are followed inside the record by stray bytes, a cut header or an undecoded message type still yield those messages, consume the record and reach the next record.",
          "Quick tier samples the cuts beyond the record end for lengths > 512 (full in thorough).", "4/C10"),
  "C11": ("exhaustive enumeration of every value of 47 enumerated wire fields inside generated well-formed templates (templates vary with the value; RFC-meaningful neighbours), plus joint sweeps of the three record-header fields and of (hello version, cipher id, extension-block shape)",
          "Each field's whole integer domain is written into a well-formed structure and read back from the parsed value, for k template variants.",
@@ -52,13 +52,13 @@ CHECKS.update({
          "Exact decode and self-delimitation with trailing bytes, prefix rejection, clones, caller-supplied content parsers (empty, confined) for parse_content_and_signature, all 256 curve types, all 65536 named groups, all 65536 (hash, signature) octet pairs through the derived and the hand-written decoders, both negotiation flag values against inputs of both forms.",
          "Reference decoder for the two DigitallySigned forms is written in the harness.", "4/C13"),
  "C14": ("proptest-generated SCT lists with an RFC 6962 reference encoder; targeted overlong-entry / overlong-list corruptions",
-         "Lists of 0..8 SCTs with full-range fields, single-entry parser, entries exceeding the list, lists exceeding the input, prefixes, entries and lists of exactly 65531..65535 bytes; lists at the start of buffers of 10 MiB +- 1, 16 MiB and 2^32 + k bytes.",
+         "Lists of 0..8 SCTs with full-range fields, single-entry parser, entries exceeding the list, lists exceeding the input, prefixes, entries and lists of exactly 65531..65535 bytes; lists at the start of buffers of 10 MiB +- 1, 16 MiB and 2^32 + k bytes. Extension data shaped like the SCT's own tail (algorithm pair, length, bytes) at lengths n*256 is data.",
          "Model encoder per RFC 6962 3.2/3.3.", "4/C14"),
  "C15": ("proptest-generated parsed and constructed hellos (TLS and DTLS); oracle = accessor equals (and aliases) the field, rand_time/rand_bytes by reference computation, cipher accessors against the harness's own registry table",
-         "All trait accessors and inherent getters on parsed TLS/DTLS ClientHello, constructed values with randoms of any length (accessors by method syntax, trait path and trait object must agree; vectors with spare capacity; fields edited after construction), ServerHello constructor and getters; accessors through a reference to a reference; 16 hello versions x all 65536 ids through the cipher accessors; one fresh process per registered id in which that id is the first registry lookup.",
+         "All trait accessors and inherent getters on parsed TLS/DTLS ClientHello, constructed values with randoms of any length (accessors by method syntax, trait path and trait object must agree; vectors with spare capacity; fields edited after construction), ServerHello constructor and getters; accessors through a reference to a reference; 16 hello versions x all 65536 ids through the cipher accessors; one fresh process per registered id in which that id is the first registry lookup. Every registered id at every position of lists of 16, 17, 32 entries among unlisted ids above / below it, other listed ids and copies of itself (exhaustive).",
          "For randoms shorter than 4 bytes only absence of panics and agreement between the dispatch routes is required.", "4/C15"),
  "C16": ("differential: multi-record parsers vs an explicit loop over the single-record parser on proptest-generated record concatenations with six kinds of endings; alias differential on soup and corrupted structures",
-         "Records, remainder position and failure condition must match the loop exactly (also for runs of thousands of identical or empty records and for 11 MiB of valid records in one buffer); the deprecated alias must be identical including errors.",
+         "Records, remainder position and failure condition must match the loop exactly (also for runs of thousands of identical or empty records and for 11 MiB of valid records in one buffer); the deprecated alias must be identical including errors. The stopping record may be a valid record with one inner byte changed or a ClientHello valid up to one inner length field (TLS and DTLS).",
          "Records compared after conversion to model types.", "4/C16"),
  "C18": ("configuration enumeration (4 feature sets, complete) + differential execution of a proptest-generated corpus under the three buildable configurations; source scan (also of the macro-expanded crate), compile-time Send/Sync probe per feature set and a multi-threaded lookup stress for the static sub-claims",
          "Build status per feature set, compile_error text (through a dependent package, and for the crate's own library and unit-test harness), byte-identical per-input digests of 30 entry points + registry + state machine + defragmenter + the verdict of == between the values decoded from consecutive (near-duplicate) inputs across configurations; forbid(unsafe_code) and absence of the unsafe token; Send + Sync of 77 listed public types, of every pub struct / pub enum found in the sources of the tree under test, and of the value every public gen_* serializer returns, by type-checking a probe package.",
